@@ -20,6 +20,36 @@ fn k_fixed_builder(depth: u8, cap: usize, m: usize) {
   p_fixed_builder(depth, is_full, cap, m, p0, p1, p2, p3, c);
 }
 
+/// One step of the fixed-depth builder on an arbitrary valid pre-state: `buff_to_bmoc` (with `largest_lower_cell_sequence_len`) on
+/// ANY strictly increasing buffer of m cells -- what `drain_buffer` hands it after sort + dedup. No sort, no `or`: small enough to
+/// cover 4 cells at depths 0..2 (the end-to-end harness with 4 pushes runs out of memory at 40 GB).
+fn k_fixed_buff(depth: u8, m: usize) {
+  let is_full: bool = kani::any();
+  let p0: u64 = kani::any();
+  let p1: u64 = kani::any();
+  let p2: u64 = kani::any();
+  let p3: u64 = kani::any();
+  let c: u64 = kani::any();
+  let nh = spec_n_hash(depth);
+  kani::assume(c < nh && (m < 1 || p0 < nh) && (m < 2 || (p1 < nh && p0 < p1)) && (m < 3 || (p2 < nh && p1 < p2)) && (m < 4 || (p3 < nh && p2 < p3)));
+  kani::cover!(m == 4 && p0 & 3 == 0 && p3 == p0 + 3, "four siblings");
+  kani::cover!(m >= 2 && p1 == p0 + 1 && p0 & 3 == 1, "consecutive cells that are not a complete parent");
+  let ps = [p0, p1, p2, p3];
+  let mut buffer: Vec<u64> = Vec::with_capacity(4);
+  let mut t = 0usize;
+  while t < m { buffer.push(ps[t]); t += 1; }
+  let mut b = BMOCBuilderFixedDepth { depth, bmoc: None, is_full, buffer, sorted: true };
+  let bm = b.buff_to_bmoc();
+  assert!(bm.get_depth_max() == depth, "C15: builder output has the wrong depth_max");
+  let (bad, sr, _) = spec_scan(depth, &bm.entries, c);
+  assert!(bad.is_none(), "C15/C09: builder output is not well formed");
+  let mut pushed = false;
+  t = 0;
+  while t < m { if ps[t] == c { pushed = true; } t += 1; }
+  let expected = if pushed { if is_full { FULL } else { PARTIAL } } else { ABSENT };
+  assert!(sr == expected, "C15: builder output does not cover exactly the pushed cells with the requested flag");
+}
+
 /// Model of `slice::sort_unstable` (environment: std) for the fixed-depth builder harnesses: an insertion sort on at most 4
 /// elements, the bound being asserted. The std implementation (pattern-defeating quicksort + recursion) is out of reach of the
 /// symbolic execution even for 2 elements (symbolic length).
